@@ -73,7 +73,7 @@ theorem object_children_in_schema_order (env : Env) (f : Nat) (name : String) (n
     ∃ attrs, marshal env (f + 1) name ns (.complex k) nl (.obj real fields) =
         [.mk ns name attrs none ((members env (env.types.length + 1) (real.getD k)).flatMap (emit env f fields))] ∧
       ∀ md i, i ∈ emit env f fields md →
-        i.name = md.1.name ∧ i.nsOf = (if md.1.qualified then some (env.uri md.2) else none) := by
+        i.name = md.1.name ∧ i.nsOf = (if md.1.qualified then some (env.uri (md.1.refNs.getD md.2)) else none) := by
   refine ⟨(if real.getD k == k && !env.encoded then [] else [xsiType env (real.getD k)]) ++
     (attrsOf env (env.types.length + 1) (real.getD k)).filterMap (attrInfo fields), ?_, ?_⟩
   · simp only [marshal, emit]; rfl
@@ -160,10 +160,10 @@ theorem list_of_leaves_length (env : Env) (f : Nat) (name : String) (ns : Option
 /-! Non-vacuity: a concrete two-type environment with inheritance across namespaces. -/
 def exEnv : Env :=
   { uris := ["urn:a", "urn:b"],
-    types := [⟨(0, "Base"), none, [⟨"id", .builtin "int", 1, false, false, true, false⟩], []⟩,
+    types := [⟨(0, "Base"), none, [⟨"id", .builtin "int", 1, false, false, true, false, none⟩], []⟩,
               ⟨(1, "Derived"), some (0, "Base"),
-               [⟨"tag", .builtin "string", 0, false, true, false, false⟩,
-                ⟨"n", .builtin "int", 1, false, true, true, false⟩], []⟩] }
+               [⟨"tag", .builtin "string", 0, false, true, false, false, none⟩,
+                ⟨"n", .builtin "int", 1, false, true, true, false, none⟩], []⟩] }
 
 example : (members exEnv 3 (1, "Derived")).map (fun md => (md.1.name, md.2)) = [("id", 0), ("tag", 1), ("n", 1)] := by
   decide
